@@ -205,12 +205,14 @@ def renamer_sequence(proto):
     if isinstance(proto, onnx.FunctionProto):
         from onnxscript.backend import onnx_export as E
         return [x for x in E._names_used_in_function(proto) if x != ""]
+    from harness import c13_variants
     seq = []
+    if c13_variants.detect()["init_raw_key"]:  # C13_02: the Constant of an initializer keeps its ONNX name, translated once, first
+        seq.extend(i.name for i in proto.graph.initializer)
     for n in proto.graph.node:
         seq.extend(o for o in n.output if o != "")
         seq.extend(i for i in n.input if i != "")
     seq.extend(o.name for o in proto.graph.output)
-    from harness import c13_variants
     if c13_variants.detect()["sig_renamed"]:  # C13_01: the signature is renamed too, after the body and the return values
         seq.extend(i.name for i in proto.graph.input)
     out, seen = [], set()
@@ -221,35 +223,73 @@ def renamer_sequence(proto):
     return out
 
 
+def names_collide(proto):
+    from onnxscript.backend import onnx_export as E
+    names = G.all_names(proto)
+    return len({E._cleanup_variable_name(n) for n in names}) != len(set(names))
+
+
+def init_collision_guard(proto):
+    """the emission models translate an initializer's name twice (as the source did before C13_02); that equals translating it
+    once unless the Python name of an initializer is itself another ONNX name of the model: such models are left out"""
+    if not isinstance(proto, onnx.ModelProto) or not proto.graph.initializer:
+        return
+    from onnxscript.backend import onnx_export as E
+    names = G.all_names(proto)
+    clean = {}
+    for n in names:
+        clean.setdefault(E._cleanup_variable_name(n), []).append(n)
+    for i in proto.graph.initializer:
+        if len(clean.get(E._cleanup_variable_name(i.name), [])) > 1 or (E._cleanup_variable_name(i.name) != i.name and E._cleanup_variable_name(i.name) in names):
+            raise OutOfScope("an initializer's name collides after clean-up with another name (twice-translated in the model)")
+
+
+def rename_term(proto, rename, seq, prelude=None, tag="0"):
+    """Coq term of the exporter's renamer for this proto: the clean-up or the short names, wrapped by the unique-name mapper
+    (Export/Unique.v, repair C13_07) when the implementation has it and the names of the model collide after clean-up
+    (without collisions the wrapper is the identity on the base names)"""
+    from harness import c13_variants
+    if prelude is None:  # no place for definitions: inline terms (re-evaluated at every call inside Coq; small inputs only)
+        base = f"(short_map kwlist {clist(seq, cstr)})" if rename else "(cleanup kwlist)"
+        if c13_variants.detect()["unique_names"] and names_collide(proto):
+            return f"(uniq_fn {base} {clist(seq, cstr)})"
+        return base
+    base = "(cleanup kwlist)"
+    if rename:  # the dictionaries are evaluated once, when the definition is made
+        prelude.append(f"Definition sq{tag} : list string := {clist(seq, cstr)}.")
+        prelude.append(f"Definition sm{tag} := Eval vm_compute in (combine sq{tag} (snd (short_rename_all kwlist [] sq{tag}))).")
+        base = f"(assoc_rename sm{tag} (cleanup kwlist))"
+    if c13_variants.detect()["unique_names"] and names_collide(proto):
+        if not rename:
+            prelude.append(f"Definition sq{tag} : list string := {clist(seq, cstr)}.")
+        prelude.append(f"Definition um{tag} := Eval vm_compute in (uniq_map {base} sq{tag}).")
+        return f"(uniq_apply um{tag} {base})"
+    return base
+
+
 def observe(case, rename):
     """run the real exporter on the case and parse what it printed"""
     import onnxscript
     proto = case["proto"]
-    if rename and isinstance(proto, onnx.ModelProto) and proto.graph.initializer:
-        raise OutOfScope("rename=True on a model with initializers (the twice-renamed Constant needs the mapper's state)")
     from harness import c13_variants
-    if c13_variants.detect()["unique_names"]:
-        from onnxscript.backend import onnx_export as E
-        names = G.all_names(proto)
-        if len({E._cleanup_variable_name(n) for n in names}) != len(set(names)):
-            raise OutOfScope("unique-name repair (C13_07) on a model whose names collide after clean-up: suffixes not modelled")
+    vr = c13_variants.detect()
+    if rename and isinstance(proto, onnx.ModelProto) and proto.graph.initializer and not (vr["init_raw_key"] and vr["sig_renamed"]):
+        raise OutOfScope("rename=True on a model with initializers (the twice-renamed Constant needs the mapper's state)")
+    init_collision_guard(proto)
     code = onnxscript.proto2python(proto, rename=rename)
     lit, nst = parse_program(code)
     return {"func": lit, "code": code, "statements": nst}
 
 
-def coq_terms(case, rename):
+def coq_terms(case, rename, prelude=None, tag="0"):
     """-> (prename, rename, fname, ivals, graph) Coq terms of the model side"""
     proto = case["proto"]
     is_model = isinstance(proto, onnx.ModelProto)
     raw_name = proto.graph.name if is_model else proto.name
     clean = "(cleanup kwlist)"
-    if rename:
-        from harness import c13_variants
-        ren = f"(short_map kwlist {clist(renamer_sequence(proto), cstr)})"
-        pre = clean if (is_model and not c13_variants.detect()["sig_renamed"]) else ren
-    else:
-        ren = pre = clean
+    from harness import c13_variants
+    ren = rename_term(proto, rename, renamer_sequence(proto), prelude, tag)
+    pre = clean if (is_model and not c13_variants.detect()["sig_renamed"]) else ren
     return pre, ren, f"(cleanup kwlist {cstr(raw_name)})", ivals_lit(proto), graph_lit(proto)
 
 
@@ -257,7 +297,7 @@ def coq_body(items):
     """items: list of (case, rename, obs).  One Coq file: indices of disagreeing cases, then emit_okb of every case."""
     lines = []
     for k, (case, rename, obs) in enumerate(items):
-        pre, ren, fname, iv, g = coq_terms(case, rename)
+        pre, ren, fname, iv, g = coq_terms(case, rename, lines, str(k))
         lines.append(f"Definition g{k} : graph := {g}.")
         lines.append(f"Definition iv{k} : list (vname * attrv) := {iv}.")
         lines.append(f"Definition m{k} : option func := export_graph kwlist {pre} {ren} {fname} iv{k} g{k}.")
@@ -271,7 +311,7 @@ def coq_body(items):
     return "\n".join(lines)
 
 
-REQUIRES = ["OV.Gen.ExportTables", "OV.Export.Cleanup", "OV.Graph.Syntax", "OV.Script.Syntax", "OV.Export.Emit"]
+REQUIRES = ["OV.Gen.ExportTables", "OV.Export.Cleanup", "OV.Export.Unique", "OV.Graph.Syntax", "OV.Script.Syntax", "OV.Export.Emit"]
 
 
 # ----------------------------------------------------------------------------------------------- generator
